@@ -105,7 +105,10 @@ class H:
             return SR(t)
         if self.inputs is not None:
             if name not in self.inputs:
-                raise HarnessError(f"replay has no value for input {name}")
+                # declared after the point where the symbolic run stopped: any admissible value will do
+                a = -3.0 if lo is None else float(lo)
+                b = a + 6.0 if hi is None else float(hi)
+                self.inputs[name] = 0.5 * (a + b)
             v = float(self.inputs[name])
         else:
             a = -3.0 if lo is None else float(lo)
